@@ -81,4 +81,100 @@ theorem SeqState.runTR_go_eq (s : SeqState) (ops : List SeqOp) (acc : Array Nat)
 @[csimp] theorem SeqState.run_eq_runTR : @SeqState.run = @SeqState.runTR := by
   funext s ops; simp [SeqState.runTR, SeqState.runTR_go_eq]
 
+/-! ### several callers: small-step interleaving semantics
+
+  N threads (indexed by `Nat`; any number, `thr i` with an empty program never moves), each
+  running its own list of method calls.  A call is executed as micro-steps
+
+      draw ticket `before` · Lock() · body under the lock · Unlock() (deferred) · return, draw ticket `after`
+
+  where the body of `NextSequenceNumber` is  read sequenceNumber · write sequenceNumber+1 ·
+  (test it against 0, bump rollOverCount) and read the return value,  and the body of `RollOverCount` is one
+  read.  Any thread whose next micro-step is enabled may take it (`step s i`); `Lock()` is enabled
+  only while the mutex is free.  What `sync.Mutex` and the Go memory model are ASSUMED to provide
+  is exactly this: mutual exclusion, and that the fields are read and written atomically and
+  in program order by the lock holder.
+
+  The two ticket draws model the harness' global atomic counter (kind `c07.hist`); `lin` is a
+  ghost log: an entry is appended when a call unlocks, its `after` ticket is filled in when the
+  call returns. -/
+
+/-- one completed call of a concurrent history -/
+structure SeqCall where
+  g : Nat          -- goroutine / thread
+  op : SeqOp
+  before : Nat     -- global ticket drawn just before the call
+  after : Nat      -- global ticket drawn just after the call returned (0: not yet returned)
+  res : Nat        -- what the call returned
+  deriving DecidableEq, Repr, Inhabited
+
+/-- where a thread is inside a call (`b` = its `before` ticket) -/
+inductive PC where
+  | idle                            -- between calls
+  | called (b : Nat)                -- ticket drawn, about to Lock()
+  | locked (b : Nat)                -- holds the mutex, body not started
+  | gotSeq (b : Nat) (t : UInt16)   -- next: has read sequenceNumber = t
+  | wrote (b : Nat)                 -- next: has written sequenceNumber = t + 1
+  | ready (b : Nat) (res : Nat)     -- return value evaluated, about to Unlock()
+  | unlocked (k : Nat)              -- mutex released (log entry k), about to return
+  deriving DecidableEq, Repr
+
+structure Thread where
+  pc : PC
+  todo : List SeqOp                 -- calls still to make; the head is the one in progress
+  deriving Repr
+
+structure Sys where
+  st : SeqState                     -- the two shared fields
+  holder : Option Nat               -- the mutex
+  clock : Nat                       -- the global ticket counter
+  thr : Nat → Thread
+  lin : List SeqCall                -- ghost log, in unlock order
+
+def Sys.setThr (s : Sys) (i : Nat) (t : Thread) : Nat → Thread := fun j => if j = i then t else s.thr j
+
+/-- thread `i` takes its next micro-step, if it is enabled -/
+def Sys.step (s : Sys) (i : Nat) : Option Sys :=
+  match (s.thr i).pc, (s.thr i).todo with
+  | .idle, op :: rest =>
+    some { s with clock := s.clock + 1, thr := s.setThr i { pc := .called (s.clock + 1), todo := op :: rest } }
+  | .called b, op :: rest =>
+    if s.holder = none then some { s with holder := some i, thr := s.setThr i { pc := .locked b, todo := op :: rest } }
+    else none
+  | .locked b, .next :: rest =>
+    some { s with thr := s.setThr i { pc := .gotSeq b s.st.seq, todo := .next :: rest } }
+  | .locked b, .roc :: rest =>
+    some { s with thr := s.setThr i { pc := .ready b s.st.roc.toNat, todo := .roc :: rest } }
+  | .gotSeq b t, todo =>
+    some { s with st := { s.st with seq := t + 1 }, thr := s.setThr i { pc := .wrote b, todo := todo } }
+  | .wrote b, todo =>
+    some { s with st := { s.st with roc := if s.st.seq == 0 then s.st.roc + 1 else s.st.roc },
+                  thr := s.setThr i { pc := .ready b s.st.seq.toNat, todo := todo } }
+  | .ready b res, op :: rest =>
+    some { s with holder := none,
+                  lin := s.lin ++ [{ g := i, op := op, before := b, after := 0, res := res }],
+                  thr := s.setThr i { pc := .unlocked s.lin.length, todo := rest } }
+  | .unlocked k, todo =>
+    some { s with clock := s.clock + 1,
+                  lin := s.lin.modify k (fun c => { c with after := s.clock + 1 }),
+                  thr := s.setThr i { pc := .idle, todo := todo } }
+  | _, _ => none
+
+/-- the system before anything happened: thread `i` is to run `prog i` -/
+def Sys.init (s0 : SeqState) (prog : Nat → List SeqOp) : Sys :=
+  { st := s0, holder := none, clock := 0, thr := fun i => { pc := .idle, todo := prog i }, lin := [] }
+
+/-- run a schedule (a list of thread ids); `none` if it names a thread that cannot move -/
+def Sys.run (s : Sys) : List Nat → Option Sys
+  | [] => some s
+  | i :: is => match s.step i with
+    | some s' => s'.run is
+    | none => none
+
+/-- no call is in flight -/
+def Sys.Quiescent (s : Sys) : Prop := ∀ i, (s.thr i).pc = .idle
+
+/-- every thread has finished its program -/
+def Sys.Complete (s : Sys) : Prop := ∀ i, (s.thr i).pc = .idle ∧ (s.thr i).todo = []
+
 end Rtp.Model
